@@ -31,6 +31,12 @@ func (s Suite) Pair(p1, p2 kyber.Point) kyber.Point {
 func (s Suite) ValidatePairing(p1, p2, p3, p4 kyber.Point) bool {
 	a, b := p1.(*G1Elt), p2.(*G2Elt)
 	c, d := p3.(*G1Elt), p4.(*G2Elt)
+	// ProdPairFrac normalises its G1 inputs with one shared inversion, which
+	// is undefined (and corrupts every input) when one of them is the
+	// identity: compare two separate pairings in that case.
+	if a.inner.IsIdentity() || c.inner.IsIdentity() {
+		return s.Pair(p1, p2).Equal(s.Pair(p3, p4))
+	}
 	out := bls12381.ProdPairFrac(
 		[]*bls12381.G1{&a.inner, &c.inner},
 		[]*bls12381.G2{&b.inner, &d.inner},
